@@ -28,6 +28,9 @@ type vfProxy struct {
 	rng       *vfRand
 	stats     vfProxyStats
 	done      chan struct{}
+	// TrailDATA: every DATA reply is followed, inside its frame, by one more byte after the data string (later protocol
+	// drafts put an optional end-of-file flag there): a string is its length and that many bytes, nothing behind it is content
+	TrailDATA bool
 }
 
 // vfStartProxy wires clientSide (the proxy's end of the client connection) to
@@ -79,6 +82,9 @@ func vfStartProxy(clientSide, serverSide *vfEnd, k int, rng *vfRand) *vfProxy {
 				}
 				p.delivered++
 				p.stats.Replies++
+				if p.TrailDATA && len(f) > 0 && f[0] == rfData {
+					f = append(append([]byte(nil), f...), 0x01)
+				}
 				p.mu.Unlock()
 				_, err := clientSide.Write(vfFrame(f))
 				p.mu.Lock()
